@@ -84,8 +84,7 @@ class C04d(Obligation):
                 out.append(Claim('nothing due when nothing returned', z3.Not(due[i])))
         m2, s2 = tracker_parts(ctx, tr2)
         out.append(Claim('remaining count', m2.count() == z3.Sum([z3.If(z3.And(d.used, z3.Not(c)), 1, 0) for d, c in zip(ds, due)])))
-        k = ret.cn()
-        out.append(Cover('returns %d' % k))
+        out += returns_covers(ret)
         if len(ds) >= 2:
             out.append(Cover('one due, one not', z3.And(due[0], ds[1].used, z3.Not(due[1]))))
             out.append(Cover('boundary deadline == now', z3.And(ds[0].used, ds[0].dl == now)))
